@@ -909,7 +909,7 @@ func (r *seqRun) step(i int, op Op) {
 			end := op.Off + uint64(op.Count)
 			if end >= op.Off && op.Off <= 1<<63-1 && end > uint64(r.maxFile) && end > base.file.size && op.Count > 0 {
 				r.o.Checks++
-				if res.Status != nfsclient.NFS3ERR_FBIG && !(int(op.Count) > r.transfer && res.Status == nfsclient.NFS3ERR_INVAL) {
+				if res.Status != nfsclient.NFS3ERR_FBIG && !(int(op.Count) > r.transfer && res.Status == nfsclient.NFS3ERR_INVAL) && !(r.faulted() && res.Status != 0) {
 					r.vio("C25.write-beyond-limit-not-refused", fmt.Sprintf("status=%d", res.Status), "%s: WRITE to %d..%d with MaxFileSize=%d got %s, want NFS3ERR_FBIG", name, op.Off, end, r.maxFile, nfsclient.NFSStatName(res.Status))
 					e = expect{either: true}
 				} else {
@@ -978,7 +978,7 @@ func (r *seqRun) step(i int, op Op) {
 				tooBig = true
 				e = expect{ok: false}
 				r.o.Checks++
-				if res.Status != nfsclient.NFS3ERR_FBIG {
+				if res.Status != nfsclient.NFS3ERR_FBIG && !(r.faulted() && res.Status != 0) {
 					r.vio("C25.setattr-beyond-limit-not-refused", fmt.Sprintf("status=%d", res.Status), "%s: SETATTR(size=%d) with MaxFileSize=%d got %s, want NFS3ERR_FBIG", name, *op.SA.Size, r.maxFile, nfsclient.NFSStatName(res.Status))
 					e = expect{either: true}
 				}
